@@ -8,7 +8,59 @@ from .facts import VERIF, REPO
 
 
 class AnchorMissing(Exception):
-    """A function / type / field the rule is anchored on does not exist (fail closed)."""
+    """A function / type / field the rule is anchored on was not found.
+
+    absent=False (default): fail closed - the rule reports a violation.
+    absent=True: the *named* inherent function / type / constant of the reviewed tree does not exist in
+    this tree at all (renamed with another signature, merged, split, moved into another type).  No edit
+    that still compiles can delete such an entity without also rewriting every use of it, so this is a
+    restructuring, not a dropped check: the rule cannot say anything about the new shape and is reported
+    as UNDECIDED instead of raising an alarm.  Overrides of trait methods (whose removal silently falls
+    back to the default method) are never treated this way."""
+
+    def __init__(self, msg, absent=False):
+        super().__init__(msg)
+        self.absent = absent
+
+
+_REVIEWED = None
+
+
+def _reviewed_table():
+    global _REVIEWED
+    if _REVIEWED is None:
+        p = os.path.join(VERIF, "rules", "anchors.json")
+        try:
+            with open(p) as fh:
+                _REVIEWED = json.load(fh)
+        except OSError:
+            _REVIEWED = {}
+    return _REVIEWED
+
+
+def _is_trait_override(suffix):
+    """was the reviewed function of this name an override of a trait method?"""
+    hits = []
+    for d, t in _reviewed_table().items():
+        gd = _generic_free(d)
+        if d == suffix or d.endswith("::" + suffix) or gd.endswith("::" + suffix) or gd == suffix:
+            hits.append(t)
+    if not hits:
+        return " as " in suffix
+    for t in hits:
+        try:
+            sig = json.loads(t["sig"])
+        except Exception:
+            return True
+        if sig.get("trait") and not d_is_trait_decl(sig):
+            return True
+    return False
+
+
+def d_is_trait_decl(sig):
+    # provided methods declared inside the trait itself carry the trait in "trait" too; they have no
+    # self type of their own
+    return not sig.get("self")
 
 
 class Program:
@@ -45,7 +97,7 @@ class Program:
     def fn(self, suffix):
         fs = self.find_fns(suffix)
         if len(fs) != 1:
-            raise AnchorMissing("function %s (%d matches)" % (suffix, len(fs)))
+            raise AnchorMissing("function %s (%d matches)" % (suffix, len(fs)), absent=(len(fs) == 0 and not _is_trait_override(suffix)))
         return fs[0]
 
     def fn_opt(self, suffix):
@@ -59,12 +111,12 @@ class Program:
                 if v is None:
                     raise AnchorMissing("const %s is not a literal" % suffix)
                 return v
-        raise AnchorMissing("const %s" % suffix)
+        raise AnchorMissing("const %s" % suffix, absent=True)
 
     def adt(self, suffix):
         hits = [a for p, a in self.adts.items() if p == suffix or p.endswith("::" + suffix)]
         if len(hits) != 1:
-            raise AnchorMissing("type %s (%d matches)" % (suffix, len(hits)))
+            raise AnchorMissing("type %s (%d matches)" % (suffix, len(hits)), absent=(len(hits) == 0))
         return hits[0]
 
     # ---- call graph --------------------------------------------------------------------------
@@ -305,11 +357,23 @@ class Check:
             self.ok(rule, key, "-", "%d %s (floor %d)" % (count, what, minimum))
 
     def guarded(self, rule, fn):
-        """Run a rule function; a missing anchor is a violation (fail closed)."""
+        """Run a rule function; a missing anchor is a violation (fail closed) unless the named entity is
+        gone from the tree altogether (see AnchorMissing)."""
         try:
             fn(self)
         except AnchorMissing as e:
-            self.bad(rule, "%s/ANCHOR/%s" % (rule, str(e).split(" (")[0]), "-", "anchor missing: %s" % e)
+            if getattr(e, "absent", False):
+                self.undecided(rule, str(e).split(" (")[0])
+            else:
+                self.bad(rule, "%s/ANCHOR/%s" % (rule, str(e).split(" (")[0]), "-", "anchor missing: %s" % e)
+
+    def undecided(self, rule, what):
+        key = "%s/UNDECIDED/%s" % (rule, what)
+        sig = (rule, key)
+        if sig in self._seen:
+            return
+        self._seen.add(sig)
+        self.instances.append({"rule": rule, "key": key, "verdict": "undecided", "where": "-", "detail": "%s of the reviewed tree does not exist in this tree (restructured): the rule was not evaluated" % what})
 
     def note(self, s):
         self.notes.append(s)
@@ -356,6 +420,9 @@ def finish(check, explanation, assumptions, not_decided, extra_cov=None):
             json.dump({"property": check.prop, "instance": inst, "rule_text": check.rules.get(inst["rule"], "")}, fh, indent=1)
         print("%s: rule %s: %s: %s" % (inst["where"], inst["rule"], inst["key"], inst["detail"]))
         print("VIOLATION property=%s replay=%s" % (check.prop, rp))
+    und = [i for i in check.instances if i["verdict"] == "undecided"]
+    for inst in und:
+        print("UNDECIDED property=%s rule=%s: %s" % (check.prop, inst["rule"], inst["detail"]))
     n = len(check.instances)
     ok = sum(1 for i in check.instances if i["verdict"] == "ok")
     distinct = len({i["key"] for i in check.instances if i["where"] != "-"})
@@ -390,6 +457,7 @@ def finish(check, explanation, assumptions, not_decided, extra_cov=None):
             "repo": check.prog.repo,
         },
         "not_decided": not_decided,
+        "undecided_rules": [{"rule": i["rule"], "why": i["detail"]} for i in und],
         "notes": check.notes + (["functions analysed under their reviewed names after a rename (unique signature match): %s" % check.prog.renamed] if check.prog.renamed else []),
         "exhaustive": True,
     }
